@@ -196,7 +196,7 @@ def linkCompute (f : List α → α) (ravel : Bool) (args : List (Val α)) : Opt
 inductive NAxis where
   | idx (i : Int)                        -- integer index, already non-negative
   | sl (b : Int) (n : Nat) (st : Int)    -- `range(b, b + n*st, st)`
-  deriving Repr, BEq
+  deriving Repr, BEq, DecidableEq
 
 /-- Normalise a Python view against a shape (`slice.indices`, negative integers); axes not
 mentioned by the view are kept whole.  `none` = IndexError / ValueError. -/
@@ -241,6 +241,9 @@ def viewBase : List NAxis → List Int → Int
 def applyViewN (a : SArr α) (v : List NAxis) : SArr α :=
   { shape := viewShapeN v, strides := viewStrides v a.strides,
     base := a.base + viewBase v a.strides, buf := a.buf }
+
+/-- The whole array as a view (`normView D []`). -/
+def fullView (D : List Nat) : List NAxis := D.map fun h => NAxis.sl 0 h 1
 
 /-- numpy returns a scalar when every axis is indexed by an integer. -/
 def toVal (a : SArr α) : Val α :=
@@ -481,6 +484,16 @@ def specAt (I : Interp ω α) : Nat → Table κ ω α → List Int → κ → O
     | some (.derived (.func fs f _)) =>
       (mapM' (specAt I fuel t idx) fs).map (I.fnf f)
     | some (.derived (.parsed p)) => p.evalPt I.opf I.negf (specAt I fuel t idx)
+
+/-- Every identifier needed to evaluate `k` resolves within `fuel` levels of nesting (decidable
+hypothesis of `getitem_elementwise`; false on cyclic definitions and dangling references). -/
+def refsOk : Nat → Table κ ω α → κ → Bool
+  | 0, _, _ => false
+  | fuel + 1, t, k =>
+    match t.find k with
+    | none => false
+    | some (.prim _) => true
+    | some (.derived l) => l.fromIds.all (refsOk fuel t)
 
 /-! ### `remove_component` -/
 
